@@ -41,9 +41,9 @@ const realisationCap = 512
 
 func cases(tier string) int {
 	if tier == "thorough" {
-		return 5000
+		return 40000
 	}
-	return 300
+	return 1200
 }
 
 // World is what a case generates.
